@@ -81,7 +81,8 @@ static void dispatcher_pass(cppcms::service &srv,int sh,int n,int maxlist){ std:
 					std::string got; for(size_t q=0;q<g_log.size();q++) got+=g_log[q];
 					if(r!=wr||got!=want){ std::string cs="handlers: "+cfgs+" method="+(method?method:"<no context>")+" path="+vf::vis(in); bad(std::string("route:")+(wr? (r? (g_log.size()>1?"multiple-handlers":"wrong-handler-or-args"):"missed") : "spurious"),"dispatch returned "+std::string(r?"true":"false")+" invoking ["+got+"], expected "+(wr?"["+want+"]":"no handler"),cs); }
 					if(wr) vf::guard("dispatched"); else vf::guard("not_found"); if(in!=cin) vf::guard("inputs_with_nul");
-					if(k<400) vf::outcome(cfgs+(method?method:"-")+in+">"+got); }
+					if(k<400) vf::outcome(cfgs+(method?method:"-")+in+">"+got);
+					if(wr){ static uint64_t sc=0; if(vf::sample_tick(sc,5003)) vf::sample("{\"handlers\":"+vf::jstr(cfgs)+",\"method\":"+vf::jstr(method?method:"<no context>")+",\"path\":"+vf::jstr(vf::vis(in))+",\"invoked\":"+vf::jstr(got)+"}"); } }
 				if(mi>=0) app.release_context(); } }
 	};
 	std::function<void(int)> rec=[&](int d){ if(d>0) { // enumerate filter assignments for the map() style: all for lists of 1, a diagonal for longer lists
